@@ -242,15 +242,13 @@ def main(chk, replay_file):
     wl = ["--unwindset", "h_base.0:%d" % (info["RESET_END"] + 2)]
     ws = ["--unwindset", "havoc_state.0:9"]
     jobs = [
-        J("lockstep.step.class%d" % c, unit, "h_lockstep", unwind=4, flags=ws, defines=["OPCLASS=%d" % c], timeout=1500, stop_on_fail=True,
+        J("lockstep.step", unit, "h_lockstep", unwind=4, flags=ws, timeout=2400, stop_on_fail=True, mem_est=11,
           functions=["hexsim step", "hextb tail/head/tail/head", "handleSyscall"],
-          note="all register values x memory contents x tick numbers (reset tail included); instruction class %d of 4 (%s)" % (c, ["memory access", "constants/branches/prefixes", "OPR BRB/ADD/SUB", "OPR SVC (system calls)"][c]))
-        for c in range(4)
-    ] + [
-        J("lockstep.base", unit, "h_base", unwind=4, flags=wl, timeout=1500, stop_on_fail=True, functions=["hextb prologue + reset window"], note="every power-on state"),
-        J("lockstep.step.canary", unit, "h_lockstep", unwind=4, flags=ws, defines=["CANARY"], kind="canary", checks=[], timeout=1500),
-        J("lockstep.base.canary", unit, "h_base", unwind=4, flags=wl, defines=["CANARY"], kind="canary", checks=[], timeout=1500),
-        J("lockstep.step.cover", unit, "h_lockstep", unwind=4, flags=ws, defines=["COVER"], kind="cover", cover=True, checks=[], timeout=1500),
+          note="all register values x memory contents x defined instructions x tick numbers (reset tail included)"),
+        J("lockstep.base", unit, "h_base", unwind=4, flags=wl, timeout=2400, stop_on_fail=True, mem_est=6, functions=["hextb prologue + reset window"], note="every power-on state"),
+        J("lockstep.step.canary", unit, "h_lockstep", unwind=4, flags=ws, defines=["CANARY"], kind="canary", checks=[], timeout=2400, mem_est=11),
+        J("lockstep.base.canary", unit, "h_base", unwind=4, flags=wl, defines=["CANARY"], kind="canary", checks=[], timeout=2400, mem_est=6),
+        J("lockstep.step.cover", unit, "h_lockstep", unwind=4, flags=ws, defines=["COVER"], kind="cover", cover=True, checks=[], timeout=2400, mem_est=11),
     ]
     chk.jobs = jobs
     hv.run_jobs(jobs, chk.out)
